@@ -38,7 +38,7 @@ pub fn c09(cx: &Ctx) -> (Vec<Violation>, Cover) {
         cmds.sort_by_key(|i| a.cmds[*i].seq);
         for ci in cmds {
             let c = &a.cmds[ci];
-            if Some(c.op) == panicked_op || matches!(c.act, RAct::Noop) {
+            if Some(c.op) == panicked_op || matches!(c.act, RAct::Noop) || c.direct_in_body {
                 continue;
             }
             cov.relevant = true;
